@@ -21,5 +21,6 @@ func init() {
 	add("C09", "C09/tag-parser", "C04/tag-parser", func(c *Ctx) { ruleTagParser(c, "C04/tag-parser") })
 	add("C18", "C18/version-gate", "C02/version-gate", ruleC02VersionGate)
 	add("C17", "C17/union-variants", "C05/union-variants", ruleC05UnionVariants)
+	add("C18", "C18/annotations-handover", "C07/R2", ruleC07R2)
 	add("C08", "C08/decided-by-equal", "C12/decided-by-equal", ruleC12DecidedByEqual)
 }
